@@ -154,25 +154,17 @@ Theorem C16_local_keeps_master :
 Proof. exact local_keeps_master. Qed.
 Print Assumptions C16_local_keeps_master.
 
-(* "tags on removed revisions are dropped" is FALSE for bound branches (local=False):
-   the same uncommit that drops the tag on a standalone branch fails with
-   LockContention when the branch is bound (remove_tags -> delete_tag re-opens and
-   write-locks the master that uncommit() already holds locked) ... *)
-Theorem C16_bound_tags_refuted :
-  exists g b ts mb,
-    wf_dag g = true /\ opt_eqb (tip b) (tip mb) = true /\
-    uncommit g b (Some ts) None 1 false false = Ok (mkS (Some 0) 1 [], Some (mkT [0] []), None) /\
-    uncommit g b (Some ts) (Some mb) 1 false false = Err LockContention.
-Proof. exact bound_tags_refuted. Qed.
-Print Assumptions C16_bound_tags_refuted.
-
-(* ... in fact a bound uncommit never drops any tag: it succeeds only when there
-   is none to drop (for standalone branches and local=True, C16_tags applies) *)
-Theorem C16_bound_tags_guarded :
-  forall g b t mb k b' t' m',
-  uncommit g b t (Some mb) k false false = Ok (b', t', m') -> tagd b' = tagd b.
-Proof. exact bound_ok_no_tag_removed. Qed.
-Print Assumptions C16_bound_tags_guarded.
+(* bound branches and tags (repaired by commit 495a382; before it the uncommit ended in
+   LockContention): C16_tags applies to bound branches as it stands, and the tag names
+   removed from the branch are removed from the master too *)
+Theorem C16_bound_tags :
+  forall g b t mb k loc b' t' m',
+  uncommit g b t (Some mb) k false loc = Ok (b', t', m') ->
+  exists nt ps mb', plan g b (option_map tparents t) k = Ok (nt, ps) /\ m' = Some mb' /\
+    tagd b' = remove_tags g (tagd b) (tip b) ps /\
+    tagd mb' = delete_names (map fst (filter (fun nr => removed_tag g (tip b) ps nr) (tagd b))) (tagd mb).
+Proof. exact bound_master_tags. Qed.
+Print Assumptions C16_bound_tags.
 
 (* ---- the hypotheses are satisfiable by non-trivial values ------------------- *)
 
@@ -195,4 +187,11 @@ Proof. repeat split; reflexivity. Qed.
 Example ex_multi :
   uncommit ex_g (mkS (Some 5) 4 [(0, 2); (1, 5); (2, 4)]) (Some (mkT [5; 6] [])) None 2 false false
   = Ok (mkS (Some 1) 2 [(0, 2)], Some (mkT [1; 2; 3; 6] []), None).
+Proof. reflexivity. Qed.
+
+(* the old finding's witness: a bound branch in step with its master, a tag on the tip:
+   the tag now goes in both *)
+Example ex_bound_tags :
+  uncommit [[]; [0]] (mkS (Some 1) 2 [(0, 1)]) (Some (mkT [1] [])) (Some (mkS (Some 1) 2 [(0, 1); (3, 0)])) 1 false false
+  = Ok (mkS (Some 0) 1 [], Some (mkT [0] []), Some (mkS (Some 0) 1 [(3, 0)])).
 Proof. reflexivity. Qed.
